@@ -177,8 +177,32 @@ def c_gcode(g):
     return {"rep": "(GRep %d)", "range": "(GRange %d)", "two": "GTwo"}[g[0]] % tuple(g[1:])
 
 
+_VARIANT = {}
+
+
+def source_variant(rel, marker):
+    """Which variant of a combinator the checked source tree contains (regenerated from the
+    source on every run): True iff `marker` occurs in REPO/<rel> (the finalize-once / close-once fix)."""
+    key = (rel, marker)
+    if key not in _VARIANT:
+        try:
+            _VARIANT[key] = marker in open(os.path.join(vlib.REPO, rel), errors="replace").read()
+        except OSError:
+            _VARIANT[key] = False
+    return _VARIANT[key]
+
+
+def push_fixed(comb):
+    rel, marker = {"fanout": ("dfir_pipes/src/push/fanout.rs", "finalized_0"),
+                   "unzip": ("dfir_pipes/src/push/unzip.rs", "finalized_0"),
+                   "demux": ("dfir_pipes/src/push/demux_var.rs", "poll_finalize_once")}[comb]
+    return source_variant(rel, marker)
+
+
 def c_comb(case):
     c = case["comb"]
+    if c in ("fanout", "unzip", "demux") and push_fixed(c):
+        return {"fanout": "CFanoutF", "unzip": "CUnzipF", "demux": "CDemuxF"}[c]
     if c == "map":
         return "(CMap %s)" % c_fcode(case["f"])
     if c == "filter":
